@@ -6,8 +6,13 @@ Property theorems only; helper lemmas are in `Verif/Lemmas/KV.lean`, the models 
 correspondence check (`harness/c17`): every operation sequence over a small
 alphabet up to the tier's length (exhaustively) and long random sequences are run
 on the real MemDB / CacheDB(MemDB) / CacheDB(Bolt) / Bolt and on these definitions.
+
+Both halves are theorems: MemDB refines Spec (`memdb_refines_spec`), and CacheDB over ANY
+backend that refines Spec refines Spec (`cachedb_refines_spec`, `cache_refines`), hence
+all four model backends give identical outputs on every operation list (`backends_agree`).
 -/
 import Verif.Lemmas.KV
+import Verif.Lemmas.KVCache
 
 namespace Verif.C17
 open Verif.KV Std
@@ -54,7 +59,7 @@ theorem spec_get_after_del (s : Spec) (b k : Nat) (m : KMap) (h : s.working b = 
 
 /-- iteration reflects an unflushed put -/
 theorem spec_iter_after_put (s : Spec) (b k v : Nat) (m : KMap) (h : s.working b = some m) :
-    ((s.step (.put b k v)).1.step (.iter b)).2 = .kvs (m.insert k v).toList := by
+    ((s.step (.put b k v)).1.step (.iter b)).2 = .kvs (m.insert k v) := by
   simp [Spec.step, h]
 
 /-- flush makes the working image durable; cancel discards exactly the unflushed part -/
@@ -90,7 +95,156 @@ theorem memdb_get_after_put (ops : List Op) (b k v : Nat)
 
 /-- non-vacuity: a concrete non-trivial reachable state is related to its spec state and
 exhibits the unflushed-iteration behaviour the pinned code got wrong. -/
-example : runOuts MemDB.step MemDB.init [.create 0, .put 0 1 1, .iter 0] = [.ok, .ok, .kvs [(1, 1)]] := by
+example : runOuts MemDB.step MemDB.init [.create 0, .put 0 1 1, .iter 0] =
+    [.ok, .ok, .kvs (ExtTreeMap.ofList [(1, 1)])] := by
   rw [memdb_trace_eq]; decide
+
+/-! ### CacheDB over any refining backend -/
+
+/-- **CacheDB over any backend that refines `Spec` refines `Spec`**: one step from related
+states gives the same output and related states.  `Refines B Ri` is the one-step
+simulation of the inner backend; `Rc Ri c s` says there is an inner spec state `t` with
+`Ri c.inner t` such that `s` is `t` seen through the (well-formed, never flushed) overlay.
+`names` — the bucket names `Flush` ranges over — may be ANY list containing the overlay's
+buckets: any order (Go's map order is arbitrary), duplicates allowed. -/
+theorem cachedb_refines_spec {σ} {B : Backend σ} {Ri : σ → Spec → Prop} (hB : Refines B Ri)
+    (c : CacheDB σ) (s : Spec) (h : Rc Ri c s) (names : List Nat)
+    (hn : ∀ b, c.mem.has b = true → b ∈ names) (op : Op) :
+    (CacheDB.step B names c op).2 = (s.step op).2 ∧
+      Rc Ri (CacheDB.step B names c op).1 (s.step op).1 :=
+  cachedb_step_refines hB c s h names hn op
+
+/-- the two inner backends of the model refine `Spec` -/
+theorem mem_refines : Refines memBackend R := refines_mem
+theorem spec_refines : Refines specBackend Eq := refines_spec
+
+/-- compositional form, with the driver's bookkeeping of names (`CacheDB.stepN`): the cache
+over a refining backend is again a refining backend (so caches can be stacked). -/
+theorem cache_refines {σ} {B : Backend σ} {Ri : σ → Spec → Prop} (hB : Refines B Ri) :
+    Refines (cacheBackend B) (RcN Ri) :=
+  refines_cache hB
+
+/-- the order in which `Flush` visits the buckets is irrelevant: two admissible name lists
+give the same output and successors that represent the same spec state. -/
+theorem cachedb_names_irrelevant {σ} {B : Backend σ} {Ri : σ → Spec → Prop} (hB : Refines B Ri)
+    (c : CacheDB σ) (s : Spec) (h : Rc Ri c s) (n₁ n₂ : List Nat)
+    (h₁ : ∀ b, c.mem.has b = true → b ∈ n₁) (h₂ : ∀ b, c.mem.has b = true → b ∈ n₂) (op : Op) :
+    (CacheDB.step B n₁ c op).2 = (CacheDB.step B n₂ c op).2 ∧
+      Rc Ri (CacheDB.step B n₁ c op).1 (s.step op).1 ∧
+      Rc Ri (CacheDB.step B n₂ c op).1 (s.step op).1 := by
+  have a := cachedb_step_refines hB c s h n₁ h₁ op
+  have b := cachedb_step_refines hB c s h n₂ h₂ op
+  exact ⟨a.1.trans b.1.symm, a.2, b.2⟩
+
+/-- a backend that refines `Spec` gives, from related states, exactly the spec's outputs on
+every operation list. -/
+theorem refines_trace_eq {σ} {B : Backend σ} {Ri : σ → Spec → Prop} (hB : Refines B Ri)
+    (ops : List Op) : ∀ x s, Ri x s → runOuts B.step x ops = runOuts Spec.step s ops := by
+  induction ops with
+  | nil => intros; rfl
+  | cons op ops ih =>
+    intro x s h
+    have h' := hB.step x s h op
+    simp only [runOuts, h'.1, ih _ _ h'.2]
+
+/-- CacheDB over any refining backend started on a state that represents the empty spec
+state returns, for **every** operation list, exactly what the abstract map returns. -/
+theorem cachedb_any_trace_eq {σ} {B : Backend σ} {Ri : σ → Spec → Prop} (hB : Refines B Ri)
+    (x : σ) (hx : Ri x Spec.init) (ops : List Op) :
+    runOuts (CacheDB.stepN B) (CacheDB.init x) ops = runOuts Spec.step Spec.init ops :=
+  refines_trace_eq (refines_cache hB) ops _ _ (RcN_init Ri x hx)
+
+/-- in particular CacheDB over MemDB and CacheDB over Spec (the two variants the driver runs
+against the real `CacheDB(MemDB)` / `CacheDB(Bolt)`). -/
+theorem cachedb_trace_eq (ops : List Op) :
+    runOuts (CacheDB.stepN memBackend) (CacheDB.init MemDB.init) ops
+        = runOuts Spec.step Spec.init ops ∧
+    runOuts (CacheDB.stepN specBackend) (CacheDB.init Spec.init) ops
+        = runOuts Spec.step Spec.init ops :=
+  ⟨cachedb_any_trace_eq refines_mem MemDB.init R_init ops,
+   cachedb_any_trace_eq refines_spec Spec.init rfl ops⟩
+
+/-- a cache stacked on a cache (over MemDB) still behaves like the abstract map -/
+theorem cache_of_cache_trace_eq (ops : List Op) :
+    runOuts (CacheDB.stepN (cacheBackend memBackend)) (CacheDB.init (CacheDB.init MemDB.init)) ops
+      = runOuts Spec.step Spec.init ops :=
+  cachedb_any_trace_eq (refines_cache refines_mem) _ (RcN_init R MemDB.init R_init) ops
+
+/-- **all backends agree**: MemDB, CacheDB(MemDB), CacheDB(Spec) and Spec give identical
+output sequences on every operation list, flushed or not. -/
+theorem backends_agree (ops : List Op) :
+    runOuts MemDB.step MemDB.init ops = runOuts Spec.step Spec.init ops ∧
+    runOuts (CacheDB.stepN memBackend) (CacheDB.init MemDB.init) ops
+        = runOuts Spec.step Spec.init ops ∧
+    runOuts (CacheDB.stepN specBackend) (CacheDB.init Spec.init) ops
+        = runOuts Spec.step Spec.init ops ∧
+    runOuts (CacheDB.stepN memBackend) (CacheDB.init MemDB.init) ops
+        = runOuts MemDB.step MemDB.init ops :=
+  ⟨memdb_trace_eq ops, (cachedb_trace_eq ops).1, (cachedb_trace_eq ops).2,
+   (cachedb_trace_eq ops).1.trans (memdb_trace_eq ops).symm⟩
+
+/-- every reachable CacheDB state is related to the spec state reached by the same history -/
+theorem cachedb_reachable_related {σ} {B : Backend σ} {Ri : σ → Spec → Prop} (hB : Refines B Ri)
+    (x : σ) (hx : Ri x Spec.init) (ops : List Op) :
+    RcN Ri (runState (CacheDB.stepN B) (CacheDB.init x) ops) (runState Spec.step Spec.init ops) := by
+  suffices key : ∀ cn s, RcN Ri cn s →
+      RcN Ri (runState (CacheDB.stepN B) cn ops) (runState Spec.step s ops) from
+    key _ _ (RcN_init Ri x hx)
+  induction ops with
+  | nil => intro cn s h; exact h
+  | cons op ops ih => intro cn s h; exact ih _ _ ((refines_cache hB).step cn s h op).2
+
+/-- hence the spec's promises hold for the CacheDB model on every reachable state, e.g.
+read-your-writes before any flush: after any history, a `put` to a bucket that exists is
+seen by `get` (over MemDB). -/
+theorem cachedb_get_after_put (ops : List Op) (b k v : Nat)
+    (hb : ((runState Spec.step Spec.init ops).working b).isSome = true) :
+    let cn := runState (CacheDB.stepN memBackend) (CacheDB.init MemDB.init) ops
+    ((CacheDB.stepN memBackend (CacheDB.stepN memBackend cn (.put b k v)).1 (.get b k)).2)
+      = .val (some v) := by
+  intro cn
+  have hR := cachedb_reachable_related refines_mem MemDB.init R_init ops
+  have hc := refines_cache refines_mem
+  have h1 := hc.step _ _ hR (.put b k v)
+  have h2 := hc.step _ _ h1.2 (.get b k)
+  obtain ⟨m, hm⟩ := Option.isSome_iff_exists.mp hb
+  exact h2.1.trans (spec_get_after_put _ b k v m hm)
+
+/-! ### non-vacuity: concrete histories, evaluated -/
+
+/-- the hypotheses of `cachedb_refines_spec` are satisfiable: the initial states are related -/
+example : Rc R (CacheDB.init MemDB.init).1 Spec.init ∧
+    ∀ b, (CacheDB.init MemDB.init).1.mem.has b = true → b ∈ (CacheDB.init MemDB.init).2 :=
+  ⟨(RcN_init R MemDB.init R_init).1, (RcN_init R MemDB.init R_init).2.1⟩
+
+/-- unflushed put/delete seen by get and iter, flush with pending puts and deletes in two
+buckets, cancel after flush, a rejected duplicate create and a missing bucket: the model of
+CacheDB(MemDB) computes, by evaluation, these outputs ... -/
+def demoOps : List Op :=
+  [.create 0, .create 1, .put 0 1 10, .put 0 2 20, .put 1 5 50, .get 0 1, .iter 0,
+   .flush, .del 0 1, .put 0 3 30, .put 0 2 21, .get 0 1, .iter 0, .flush, .iter 0,
+   .del 1 5, .put 1 6 60, .cancel, .iter 1, .create 0, .get 7 0]
+
+def demoOuts : List Out :=
+  [.ok, .ok, .ok, .ok, .ok, .val (some 10), .kvs (ExtTreeMap.ofList [(1, 10), (2, 20)]),
+   .ok, .ok, .ok, .ok, .val none, .kvs (ExtTreeMap.ofList [(2, 21), (3, 30)]), .ok,
+   .kvs (ExtTreeMap.ofList [(2, 21), (3, 30)]),
+   .ok, .ok, .ok, .kvs (ExtTreeMap.ofList [(5, 50)]), .err, .nobucket]
+
+example : runOuts (CacheDB.stepN memBackend) (CacheDB.init MemDB.init) demoOps = demoOuts := by
+  decide +kernel
+
+example : runOuts (CacheDB.stepN specBackend) (CacheDB.init Spec.init) demoOps = demoOuts := by
+  decide +kernel
+
+/-- ... and they are the spec's (directly, and through the theorem) -/
+example : runOuts Spec.step Spec.init demoOps = demoOuts := by decide +kernel
+
+example : runOuts (CacheDB.stepN memBackend) (CacheDB.init MemDB.init) demoOps = demoOuts := by
+  rw [(cachedb_trace_eq demoOps).1]; decide
+
+/-- the stacked cache on the same history -/
+example : runOuts (CacheDB.stepN (cacheBackend memBackend)) (CacheDB.init (CacheDB.init MemDB.init))
+    demoOps = demoOuts := by decide +kernel
 
 end Verif.C17
